@@ -418,22 +418,21 @@ Inductive vop :=
                                              (None) / the root's i-th payload (Some i)): setRoot
                                              copies a root that already has an owner *)
 
-(* Fiber.copy(preserve_owner=False) 4622-4633 on an owned fiber of rank k of a tensor with n
-   ranks: _detach_owner 4647-4657 clears the owner of the fiber and, recursively, of its
-   NON-EMPTY sub-fibers (iterOccupancy skips stored-but-empty ones, which keep their owner and
-   drag a copy of their rank into the pickle); deepcopy; _attach_owner restores the operand;
-   _attach_attrs 4659-4666 gives every detached fiber of the copy a deep copy of its former
-   rank's RankAttrs (with a default box for the leaf rank).  [t] is the deep copy; the fresh
-   attrs of the fiber labelled f get the labels base+2f, base+2f+1 (base = the counter). *)
-Fixpoint attach_attrs (base : N) (d : Z) (n k : nat) (t : lt) : lt :=
+(* Fiber.copy(preserve_owner=False) on an owned fiber of rank k of a tensor with n ranks (with
+   the fix a3466bf: the helpers walk zip(coords, payloads)): _detach_owner clears the owner of
+   the fiber and, recursively, of EVERY stored sub-fiber (empty or not); deepcopy (no rank is
+   reachable any more); _attach_owner restores the operand; _attach_attrs gives every fiber of
+   the copy a deep copy of its former rank's RankAttrs (with a default box for the leaf rank).
+   [t] is the deep copy; the fresh attrs of the fiber labelled f get the labels base+2f,
+   base+2f+1 (base = the counter). *)
+Fixpoint attach_attrs (base : N) (n k : nat) (t : lt) : lt :=
   match t with
   | LB _ _ => t
   | LF f a es =>
     LF f {| a_attrs := base + 2 * f;
             a_def := if Nat.eqb (S k) n then Some (base + 2 * f + 1) else None;
             a_own := None |}
-       (map (fun ct => (fst ct, if l_empty d (snd ct) then snd ct
-                                else attach_attrs base d n (S k) (snd ct))) es)
+       (map (fun ct => (fst ct, attach_attrs base n (S k) (snd ct))) es)
   end.
 
 Record vres := { v_ops : list snapshot; v_res : snapshot; v_nx : N }.
@@ -512,7 +511,13 @@ Definition run_vop (fixed : bool) (d : Z) (n : nat) (o : vop) (ops : list snapsh
     | VSwap =>
       match n with
       | O => fiber_res (f_swap fixed O d t nx)
-      | _ => let '(c, n1) := deepcopy t nx in tensor_res n (f_swap fixed n d c n1)
+      | _ =>
+        let '(c, n1) := deepcopy t nx in
+        if l_empty d t
+        then (* tensor.py swapRanks: every fiber of the rank is empty: root = deepcopy(getRoot()),
+                an owned root, which setRoot copies with copy(preserve_owner=False) + deepcopy *)
+          tensor_res n (Some (deepcopy (attach_attrs n1 n O c) (3 * n1 + 2)))
+        else tensor_res n (f_swap fixed n d c n1)
       end
     | VArith op =>
       match n with
@@ -548,7 +553,7 @@ Definition run_vop (fixed : bool) (d : Z) (n : nat) (o : vop) (ops : list snapsh
       match n with
       | O => None
       | _ => let '(c, n1) := deepcopy t nx in
-             Some {| v_ops := ops; v_res := fiber_snap (attach_attrs n1 d n O c); v_nx := 3 * n1 + 2 |}
+             Some {| v_ops := ops; v_res := fiber_snap (attach_attrs n1 n O c); v_nx := 3 * n1 + 2 |}
       end
     | VFromFiber sub =>      (* tensor.py setRoot 722-723: root = deepcopy(root.copy(preserve_owner=False)) *)
       match n with
@@ -556,11 +561,11 @@ Definition run_vop (fixed : bool) (d : Z) (n : nat) (o : vop) (ops : list snapsh
       | _ =>
         let '(c, n1) := deepcopy t nx in
         match sub with
-        | None => tensor_res n (Some (deepcopy (attach_attrs n1 d n O c) (3 * n1 + 2)))
+        | None => tensor_res n (Some (deepcopy (attach_attrs n1 n O c) (3 * n1 + 2)))
         | Some i =>
           match nth_error (es_of c) i with
           | Some (_, LF f a es) =>
-            tensor_res (pred n) (Some (deepcopy (attach_attrs n1 d n 1 (LF f a es)) (3 * n1 + 2)))
+            tensor_res (pred n) (Some (deepcopy (attach_attrs n1 n 1 (LF f a es)) (3 * n1 + 2)))
           | _ => None
           end
         end
